@@ -4,6 +4,7 @@
    position i = Variable(i); `alldiff_sol doms a` = a picks one value per domain, pairwise
    different; `supported doms i v` = some such a gives v to position i. *)
 Require Import Selen.Model.Prelude Selen.Model.Dom Selen.Model.PropDefs Selen.Model.Gac Selen.Model.Props.AllDiff.
+Require Selen.Proofs.ConstsTie.   (* Hall-set limits 6/4 tied to the source *)
 Require Import Selen.Proofs.GacProofs Selen.Proofs.Props.AllDiffProofs.
 Require Import Coq.Sorting.Permutation.
 
